@@ -252,4 +252,33 @@ def slopeSpecGx (nrow ncol : Nat) (elev : Array Int) (nd : Int) (i : Nat) : Int 
 def slopeSpecGy (nrow ncol : Nat) (elev : Array Int) (nd : Int) (i : Nat) : Int :=
   dot9 [1, 2, 1, 0, 0, 0, -1, -2, -1] (window9 nrow ncol elev nd i)
 
+/-- whole-array form of the declarative oracle of `dem.slope`: the padded-raster convolution at every
+cell holding a value, nodata elsewhere (what the driver returns as `spec.gx`, `spec.gy`) -/
+def slopeSpecModel {α : Type} (hyp : Nat → Int → Int → α) (ndOut : α) (nrow ncol : Nat) (elev : Array Int)
+    (nd : Int) : Array α :=
+  (Array.range (nrow * ncol)).map fun i =>
+    if elev[i]! ≠ nd then hyp (i / ncol) (slopeSpecGx nrow ncol elev nd i) (slopeSpecGy nrow ncol elev nd i)
+    else ndOut
+
+/-! ### the power law of Manning's equation written out (rational model)
+
+`rivdph = ((manning * qbankfull) / (np.sqrt(rivslp) * rivwth)) ** (3 / 5)` at one cell, over the
+rationals: `pow` stands for `x ↦ x^(3/5)` and `sq` for `√` of the slope fraction (parameters, only
+their monotonicity is used); `tok` maps the value to the ordered integer token `riverDepth` works with
+(the harness uses the bit pattern of the non-negative float64). -/
+
+def manningArg (manning q sqrtS w : Rat) : Rat := (manning * q) / (sqrtS * w)
+
+def manningPw (pow : Rat → Rat) (sq : Int × Int → Rat) (tok : Rat → Int) (manning q w : Array Rat)
+    (i : Nat) (s : Int × Int) : Int :=
+  tok (pow (manningArg manning[i]! q[i]! (sq s) w[i]!))
+
+/-- the power law as a finite table (how the driver receives the parameter `pw`): candidate slopes
+`cn[c]/cd[c]`, value `tab[c·n + i]` at cell `i`; `-1` (no token of a non-negative float) when the slope
+is not a candidate. Depends on the slope only as a fraction (`pwTable_frac`). -/
+def pwTable (n : Nat) (cn cd tab : Array Int) (i : Nat) (s : Int × Int) : Int :=
+  match (List.range cn.size).find? fun c => cn[c]! * s.2 == s.1 * cd[c]! with
+  | some c => tab[c * n + i]!
+  | none => -1
+
 end Pf.C14x
